@@ -23,6 +23,7 @@ const (
 	opRelOwn   // release the id the client currently holds (skip if none)
 	opRelStale // release again the id the client released most recently (skip if none)
 	opRelPrev  // release the oldest id ever returned to the client
+	opRelAlien // release an id this guard never handed out to this client: a larger id (as from a busier record's guard), 0, a negative id, or the current head's id + 1
 	opRelBarge // release own id and, back to back on the same goroutine (before a woken waiter can run), a non-waiting start by client D
 )
 
@@ -33,7 +34,7 @@ type op struct {
 	A bool   `json:"a,omitempty"` // waiting start that passes guard.BodyAuthID
 }
 
-var kindName = map[opKind]string{opStartW: "StartW", opStartN: "StartN", opRelOwn: "RelOwn", opRelStale: "RelStale", opRelPrev: "RelPrev", opRelBarge: "RelOwn+StartN-by"}
+var kindName = map[opKind]string{opStartW: "StartW", opStartN: "StartN", opRelOwn: "RelOwn", opRelStale: "RelStale", opRelPrev: "RelPrev", opRelBarge: "RelOwn+StartN-by", opRelAlien: "RelAlien"}
 
 type clientState struct {
 	pending  bool
@@ -157,6 +158,31 @@ func runCase(ops []op, nclients int) (terms []string, human []string, nontrivial
 			q := guard.QueueSnapshot(g)
 			terms = append(terms, common.App("OStartN", common.Nat(o.C), common.Z(id), common.ZList(q)))
 			human = append(human, fmt.Sprintf("startN c%d -> %d q=%v", o.C, id, q))
+		case opRelAlien:
+			if c.pending {
+				continue
+			}
+			q0 := guard.QueueSnapshot(g)
+			var id int64
+			switch o.D % 4 {
+			case 0:
+				id = 1000 + int64(o.D) // far above anything issued here
+			case 1:
+				id = 0
+			case 2:
+				id = -3
+			default:
+				if len(q0) > 0 {
+					id = q0[len(q0)-1] + 1 // the next id that will be issued, not issued yet
+				} else {
+					id = 7
+				}
+			}
+			g.ReleaseTreasureGuard(guard.ID(id))
+			q := guard.QueueSnapshot(g)
+			terms = append(terms, common.App("ORelease", common.Nat(o.C), common.Z(id), common.ZList(q)))
+			human = append(human, fmt.Sprintf("release c%d alien id=%d q=%v", o.C, id, q))
+			nontrivial = true
 		case opRelBarge:
 			d := cs[o.D]
 			if c.pending || d.pending || len(c.holding) == 0 || o.C == o.D {
@@ -356,6 +382,9 @@ func main() {
 			if ops[j].K == opStartW && rng.Chance(25) {
 				ops[j].A = true
 			}
+			if rng.Chance(8) {
+				ops[j] = op{K: opRelAlien, C: ops[j].C, D: rng.Intn(8)}
+			}
 		}
 		emit(ops, ncl, "random")
 	}
@@ -383,6 +412,30 @@ func main() {
 			}
 		}
 		emit(ops, ncl, "auth")
+	}
+	// alien ids: with a holder and waiters queued, somebody releases an id this guard never gave him
+	nal := 160
+	if a.Tier == "thorough" {
+		nal = 2000
+	}
+	for i := 0; i < nal; i++ {
+		ncl := 3 + rng.Intn(3)
+		var ops []op
+		for c := 0; c < ncl-1; c++ {
+			ops = append(ops, op{K: opStartW, C: c})
+		}
+		ops = append(ops, op{K: opRelAlien, C: rng.Intn(ncl), D: rng.Intn(8)})
+		for j := rng.Intn(5); j > 0; j-- {
+			switch rng.Intn(3) {
+			case 0:
+				ops = append(ops, op{K: opRelAlien, C: rng.Intn(ncl), D: rng.Intn(8)})
+			case 1:
+				ops = append(ops, op{K: opRelOwn, C: rng.Intn(ncl)})
+			default:
+				ops = append(ops, op{K: opStartW, C: ncl - 1})
+			}
+		}
+		emit(ops, ncl, "alien")
 	}
 	// hand-over window: holder releases while waiters are parked and a non-waiting start arrives
 	// before the woken waiter runs
